@@ -2,20 +2,31 @@
 """Regenerates seeded/README.md from seeded/*/meta.json."""
 import json, glob, os
 HERE = os.path.dirname(os.path.dirname(os.path.abspath(__file__)))
-rows = []
+brk, keep = [], []
+def clean(s, n=170): return (s or "").replace("|", "/").replace("\n", " ")[:n]
 for f in sorted(glob.glob(os.path.join(HERE, "seeded", "*", "meta.json"))):
     m = json.load(open(f))
     sid = m.get("seeded_id", os.path.basename(os.path.dirname(f)))
-    caught = [v["check"] for v in m.get("verif", []) if v.get("quick_exit") == 1 or v.get("thorough_exit") == 1]
-    missed = [v["check"] for v in m.get("verif", []) if not (v.get("quick_exit") == 1 or v.get("thorough_exit") == 1)]
-    first = "; ".join(v.get("first_classes", "").split(";")[0] for v in m.get("verif", []) if v.get("quick_exit") == 1)
-    rows.append((sid, (m.get("summary") or "")[:160].replace("|", "/").replace("\n", " "), (m.get("needs") or "")[:160].replace("|", "/").replace("\n", " "), ", ".join(caught) or "-", ", ".join(missed) or "-", first[:140].replace("|", "/")))
-out = ["# Seeded changes (written independently by sub-agents) and which checks catch them", "",
-       "Each directory holds `patch.diff` (against the /repo HEAD of the time), the agent's demonstration (`demo/run.sh` exits non-zero iff the property is broken) and `meta.json` (what the change needs in order to manifest, what was confirmed, what each check said: exit 1 = VIOLATION). Regenerate with `tools/try_seeded.sh` + `tools/seeded_table.py`.", "",
-       "| id | change | needs | caught by (quick) | ran without alarm | first violation class |", "|---|---|---|---|---|---|"]
-for r in rows:
-    out.append("| %s | %s | %s | %s | %s | %s |" % r)
-n = len(rows); c = sum(1 for r in rows if r[3] != "-")
-out += ["", "%d of %d seeded changes are caught by at least one check." % (c, n), ""]
+    ver = m.get("verif", [])
+    if sid.startswith("keep-"):
+        alarms = [v["check"] + ":exit%d" % v["quick_exit"] for v in ver if v.get("quick_exit") != 0]
+        keep.append((sid, clean(m.get("summary")), clean(m.get("observable_details_that_changed")), ", ".join(v["check"] for v in ver) or "-", ", ".join(alarms) or "none"))
+    else:
+        caught = [v["check"] for v in ver if v.get("quick_exit") == 1 or v.get("thorough_exit") == 1]
+        quiet = [v["check"] for v in ver if not (v.get("quick_exit") == 1 or v.get("thorough_exit") == 1)]
+        first = "; ".join(v.get("first_classes", "").split(";")[0] for v in ver if v.get("quick_exit") == 1)
+        brk.append((sid, clean(m.get("summary")), clean(m.get("needs")), ", ".join(caught) or "-", ", ".join(quiet) or "-", clean(first, 140)))
+out = ["# Seeded changes written independently by sub-agents, and what the checks said", "",
+       "Each directory holds `patch.diff` (against the /repo HEAD of the time) and `meta.json` (what the change does, what it needs in order to manifest, what was confirmed, what each check said). Breaking changes also hold the agent's demonstration (`demo/run.sh` exits non-zero iff the property is broken). Regenerate with `tools/try_seeded.sh` / `tools/try_preserving.sh` and `tools/seeded_table.py`.", "",
+       "## Changes that BREAK a property (compile, pass the repository's tests, need something specific to manifest)", "",
+       "| id | change | needs | caught by (quick tier) | ran without alarm | first violation class |", "|---|---|---|---|---|---|"]
+for r in brk: out.append("| %s | %s | %s | %s | %s | %s |" % r)
+c = sum(1 for r in brk if r[3] != "-")
+out += ["", "%d of %d breaking changes are caught by at least one check." % (c, len(brk)), "",
+        "## Changes that PRESERVE the property (false-alarm probes: refactorings, optimisations, changed details the statement leaves open)", "",
+        "| id | change | observable details that changed | checks run | alarms |", "|---|---|---|---|---|"]
+for r in keep: out.append("| %s | %s | %s | %s | %s |" % r)
+k = sum(1 for r in keep if r[4] == "none")
+out += ["", "%d of %d property-preserving changes pass every check that was run against them." % (k, len(keep)), ""]
 open(os.path.join(HERE, "seeded", "README.md"), "w").write("\n".join(out))
-print("%d/%d caught" % (c, n))
+print("%d/%d breaking caught; %d/%d preserving quiet" % (c, len(brk), k, len(keep)))
